@@ -47,7 +47,7 @@ META = {
     "bounds": "histories of 1, 2 and 3 boots in one process (all boots of a "
               "history run inside one path); per boot the option set is one "
               "of: none, each of the five spinN_boot_options presets, 1 or 2 "
-              "arbitrary system variables (quick: 17 fields covering every "
+              "arbitrary system variables (quick: 19 fields covering every "
               "pack type, both ends of the configuration area, fields beyond "
               "byte 128, a field named like a boot() parameter and the "
               "fields boot() sets itself; thorough: every field of the "
@@ -938,6 +938,8 @@ QUICK_FIELDS = [
     "num_cpus", "sdram_base", "rtr_free",
     # set by boot() itself
     "root_chip",
+    # spare words inside the configuration area (names with underscores)
+    "__PAD2", "__PAD3",
 ]
 
 
